@@ -757,6 +757,23 @@ func (fl *Flow) defineInto(fs *FactSet, id *ast.Ident, e ast.Expr) {
 		fs.add(f)
 	}
 	if isIntType(v.Type()) {
+		// v := min(a, f(), …): v ≤ every pure operand, whatever the others are (max: v ≥ …)
+		if mc, ok := ast.Unparen(e).(*ast.CallExpr); ok && (isBuiltinCall(fl.info, mc, "min") || isBuiltinCall(fl.info, mc, "max")) && !fl.pureExpr(e) {
+			isMin := isBuiltinCall(fl.info, mc, "min")
+			for _, a := range mc.Args {
+				if !fl.pureExpr(a) {
+					continue
+				}
+				if la, ok := fl.z.lin(a); ok {
+					lv := linAtom(varID(v))
+					if isMin {
+						fs.add(fl.linFact(lv.add(la, -1), origin, id, a)) // v - a ≤ 0
+					} else {
+						fs.add(fl.linFact(la.add(lv, -1), origin, id, a))
+					}
+				}
+			}
+		}
 		if le, ok := fl.z.lin(e); ok && fl.pureExpr(e) {
 			lv := linAtom(varID(v))
 			fs.add(fl.linFact(lv.add(le, -1), origin, id, e))
@@ -993,8 +1010,19 @@ func (fl *Flow) literalFieldsInto(fs *FactSet, lhs, rhs ast.Expr) {
 			name = st.Field(i).Name()
 		}
 		tv, has := fl.info.Types[val]
-		if name == "" || !has || tv.Value == nil {
+		if name == "" || !has {
 			continue
+		}
+		if tv.Value == nil {
+			// tag: kind with kind a variable of the kind type (a parameter of a publishing helper):
+			// the equality itself is recorded, what the variable holds is the callers' business
+			vid, isId := ast.Unparen(val).(*ast.Ident)
+			if !isId || fl.m.KindType == nil || tv.Type == nil || !types.Identical(tv.Type, fl.m.KindType) {
+				continue
+			}
+			if _, isVar := fl.info.ObjectOf(vid).(*types.Var); !isVar {
+				continue
+			}
 		}
 		base := lhs
 		if se, isStar := ast.Unparen(lhs).(*ast.StarExpr); isStar {
@@ -1015,6 +1043,9 @@ func (fl *Flow) literalFieldsInto(fs *FactSet, lhs, rhs ast.Expr) {
 		}
 		fl.synthSel[sel] = fld
 		fl.cmpInto(fs, sel, token.EQL, val, true, fl.m.pos(cl.Pos()))
+		if tv.Value == nil {
+			continue
+		}
 		// tag == <inner kind> also as the weaker tag != leaf, which survives a join with a path on
 		// which the node changed size class
 		if fl.m.KindType != nil && types.Identical(tv.Type, fl.m.KindType) {
@@ -1534,7 +1565,7 @@ func (fl *Flow) run() {
 				continue
 			}
 			visits[si]++
-			if fl.in[si] != nil && visits[si] > 3 {
+			if fl.in[si] != nil && visits[si] > 8 {
 				// widening: from now on the set can only lose facts it already had
 				acc = fl.restrict(fl.in[si], acc)
 			}
